@@ -170,6 +170,11 @@ func (rw *rewriter) replaceExpr(e ast.Expr) ast.Expr {
 						rw.n++
 						return call("verifKill", p.X)
 					}
+				case "Wait":
+					if p, ok := s.X.(*ast.SelectorExpr); ok && p.Sel.Name == "Process" {
+						rw.n++
+						return call("verifProcWait", p.X)
+					}
 				}
 			}
 		}
@@ -528,6 +533,7 @@ const HooksSource = `package midicatdrv
 
 import (
 	"io"
+	"os"
 	"os/exec"
 	"runtime"
 	"sync"
@@ -546,6 +552,8 @@ type VerifHooks struct {
 	Output  func(*exec.Cmd) ([]byte, error)
 	Kill    func(*exec.Cmd) error
 	HasProc func(*exec.Cmd) bool
+	// ProcWait blocks until the (simulated) process has ended.
+	ProcWait func(*exec.Cmd)
 }
 
 var verifH = VerifHooks{
@@ -558,6 +566,7 @@ var verifH = VerifHooks{
 	Output:  func(c *exec.Cmd) ([]byte, error) { return []byte("0.6.9"), nil },
 	Kill:    func(*exec.Cmd) error { return nil },
 	HasProc: func(*exec.Cmd) bool { return true },
+	ProcWait: func(*exec.Cmd) {},
 }
 
 // VerifInstall installs the simulator's hooks. Must be called before any port is used.
@@ -576,6 +585,12 @@ func verifStart(c *exec.Cmd) error             { return verifH.Start(c) }
 func verifOutput(c *exec.Cmd) ([]byte, error)  { return verifH.Output(c) }
 func verifKill(c *exec.Cmd) error              { return verifH.Kill(c) }
 func verifHasProc(c *exec.Cmd) bool            { return verifH.HasProc(c) }
+
+// verifProcWait replaces cmd.Process.Wait().
+func verifProcWait(c *exec.Cmd) (*os.ProcessState, error) {
+	verifH.ProcWait(c)
+	return nil, nil
+}
 
 // verifLock replaces Lock/RLock: a goroutine waiting for a mutex must be durably blocked
 // for simulated time to advance, which a real Lock is not. The mutex stays the real one
@@ -719,6 +734,24 @@ func (r *verifPipeReader) Read(b []byte) (int, error) {
 // Close of the read side: writers get io.ErrClosedPipe.
 func (r *verifPipeReader) Close() error {
 	r.p.closeWith(io.ErrClosedPipe, io.ErrClosedPipe)
+	return nil
+}
+
+// CloseWithError of the read side: writers get err (io.ErrClosedPipe for nil).
+func (r *verifPipeReader) CloseWithError(err error) error {
+	if err == nil {
+		err = io.ErrClosedPipe
+	}
+	r.p.closeWith(io.ErrClosedPipe, err)
+	return nil
+}
+
+// CloseWithError of the write side: readers get err (io.EOF for nil).
+func (w *verifPipeWriter) CloseWithError(err error) error {
+	if err == nil {
+		err = io.EOF
+	}
+	w.p.closeWith(err, io.ErrClosedPipe)
 	return nil
 }
 
